@@ -59,7 +59,7 @@ func init() {
 			// baselines (totals are monotone and cannot be reset)
 			u0, s0 := stats.VerifTotals()
 			h0 := stats.VerifHTTPTotals()
-			mc0, ms0 := stats.VerifMeanCells()
+			stats.MeanHTTPRespTimeReset() // quiescent here: the mean is measured per burst through its public getter
 			g0 := [3]uint64{stats.PreprocessorRoutinesGet(), stats.ArchiverRoutinesGet(), stats.PostprocessorRoutinesGet()}
 			var wg sync.WaitGroup
 			start := make(chan struct{})
@@ -80,7 +80,7 @@ func init() {
 			wg.Wait()
 			u1, s1 := stats.VerifTotals()
 			h1 := stats.VerifHTTPTotals()
-			mc1, ms1 := stats.VerifMeanCells()
+			mean := stats.MeanHTTPRespTimeGet()
 			var hs []string
 			for k, v := range h1 {
 				if v-h0[k] != 0 {
@@ -89,8 +89,8 @@ func init() {
 			}
 			sort.Strings(hs)
 			g1 := [3]uint64{stats.PreprocessorRoutinesGet(), stats.ArchiverRoutinesGet(), stats.PostprocessorRoutinesGet()}
-			return fmt.Sprintf("urls=%d seeds=%d http=%s mean=%d/%d gauges=pre=%d,arch=%d,post=%d", u1-u0, s1-s0, strings.Join(hs, ","),
-				mc1-mc0, ms1-ms0, g1[0]-g0[0], g1[1]-g0[1], g1[2]-g0[2])
+			return fmt.Sprintf("urls=%d seeds=%d http=%s mean=%s gauges=pre=%d,arch=%d,post=%d", u1-u0, s1-s0, strings.Join(hs, ","),
+				strconv.FormatFloat(mean, 'g', 17, 64), g1[0]-g0[0], g1[1]-g0[1], g1[2]-g0[2])
 		}
 	})
 }
